@@ -14,10 +14,24 @@ variable {α : Type} [Num α]
 
 /-! ### helpers of lib/model -/
 
-/-- `Criteria.NotUsedName`: the base name when no id has it as a prefix, else base ++ count -/
-def notUsedName (ids : List String) (name : String) : String :=
-  let count := (ids.filter fun i => i.startsWith name).length
+/-- `firstFreeName(name, count)`: the base name for count 0, else base ++ count -/
+def firstFreeName (name : String) (count : Nat) : String :=
   if count == 0 then name else name ++ toString count
+
+/-- the loop of `Criteria.NotUsedName`: `for c.hasId(candidate) { count++; candidate = firstFreeName(name, count) }`.
+    `fuel` bounds the number of candidates that are tested; when it runs out the next (untested) candidate is
+    returned — unreachable for `fuel > ids.length` (Lemmas/BiasBNames.lean, `notUsedName_fresh`). -/
+def notUsedNameLoop (ids : List String) (name : String) : Nat → Nat → String
+  | 0, count => firstFreeName name count
+  | fuel + 1, count =>
+    if ids.contains (firstFreeName name count) then notUsedNameLoop ids name fuel (count + 1)
+    else firstFreeName name count
+
+/-- `Criteria.NotUsedName`: start at the number of ids having the name as a prefix and keep counting until
+    the candidate (`base`, `base1`, `base2`, …) is the id of no criterion.  The Go loop is unbounded; it
+    terminates within `ids.length + 1` tests because the candidates are pairwise different. -/
+def notUsedName (ids : List String) (name : String) : String :=
+  notUsedNameLoop ids name (ids.length + 1) (ids.filter fun i => i.startsWith name).length
 
 /-- `ValuesRangeWithGroundZero` -/
 def groundZeroRange (alts : List (Alt α)) (c : Crit α) : R (α × α) := do
